@@ -554,7 +554,7 @@ Theorem C06_crash_safe_guarded_thm :
       blen (fst b) + blen (snd b) <= w_maxs o /\ blen (fst b) + blen (snd b) < two63 in
     hdrdec hdr = Some (cs_roots x, 1) ->
     (exists r, hdrdec pragma_body = Some (r, 2)) ->
-    blen hdr <= w_maxh o -> blen hdr <= default_maxh -> w_maxcid o <= max_digest_alloc ->
+    blen hdr <= w_maxh o -> w_maxcid o <= max_digest_alloc ->
     match cs_kind x with KStorage false => negb (w_v1 o) | _ => false end = false ->
     51 + w_dpad o + w_ipad o + ld_size (blen hdr)
       + blen (enc_sections (concat (map fst (cs_pre x)) ++ cs_puts x)) < two63 ->
@@ -588,7 +588,7 @@ Theorem C06_crash_safe_guarded_thm :
               skipped_identity o b = true \/
               exists b', In b' stored' /\ same_key (w_whole o) (fst b') (fst b) = true /\ snd b' = snd b))).
 Proof.
-  intros hdrdec x f0 start acked_pre k t o hdr ca wellformed_put H1 H2 H3 H4 H5 H6 H7 Hwf Hca Hst Hg.
+  intros hdrdec x f0 start acked_pre k t o hdr ca wellformed_put H1 H2 H3 H5 H6 H7 Hwf Hca Hst Hg.
   assert (Hpar : params_ok hdrdec o (cs_nil x) (cs_roots x)) by (constructor; assumption).
   assert (Hb : budget o (cs_nil x) (cs_roots x) [] (concat (map fst (cs_pre x)) ++ cs_puts x)).
   { unfold budget. change (enc_sections []) with (@nil byte). rewrite blen_nil. unfold hsz, ResumeInv.hdr. fold hdr. lia. }
